@@ -24,7 +24,7 @@ def gen_cases(tier, seed):
     rng = gen.rng_for(seed, "c19", tier)
     cases = []
     seeds = [0, 1, 2 ** 31 - 1, int(seed) + 12345]
-    kinds = ["random-tensors", "initialisers", "layers", "dropout", "split", "split-arrays", "reseed-existing-model", "retrain-existing-model", "train-conv", "apply-init", "onehot-strings", "late-import-utils", "singular-points", "dropout-untracked", "repeat-backward", "mixed-dtype-join"]
+    kinds = ["random-tensors", "initialisers", "layers", "dropout", "split", "split-arrays", "reseed-existing-model", "retrain-existing-model", "train-conv", "apply-init", "onehot-strings", "late-import-utils", "singular-points", "dropout-untracked", "repeat-backward", "mixed-dtype-join", "loader-random-transform"]
     reps = 2 if tier == "quick" else 8
     for rep in range(reps):
         for k in kinds:
